@@ -169,8 +169,13 @@ impl Decoder {
                 .get_bytes(1)
                 .ok_or(DecodingError::UnexpectedFin)?[0] as usize;
 
+            let addend = (byte & 0x7F)
+                .checked_shl(power)
+                .filter(|addend| addend >> power == byte & 0x7F)
+                .ok_or(DecodingError::IntegerOverflow)?;
+
             value = value
-                .checked_add((byte & 0x7F) << power)
+                .checked_add(addend)
                 .ok_or(DecodingError::IntegerOverflow)?;
 
             power += 7;
